@@ -24,7 +24,8 @@ property_meta(
                 "kfilt / fk recursion propagates the filter / gain-control / velocity settings; destripe: high-pass, then fshift by the header's sample_shift along time with a positive sign, interpolation, spatial filter on rows with label != 3 only; "
                 "agc: x_out * gain == x_in on live channels, dead channels untouched. 40 dB stripe attenuation / 90 % spike retention: bounded stand-in on synthetic band-limited stripes.")
 
-GROUPINGS = {"interleaved": np.array([0, 1, 0, 1, 1, 0]), "blocks": np.array([2, 2, 5, 5, 5]), "np24like": np.array([0, 1, 0, 1, 2, 3, 2, 3])}
+GROUPINGS = {"interleaved": np.array([0, 1, 0, 1, 1, 0]), "blocks": np.array([2, 2, 5, 5, 5]), "np24like": np.array([0, 1, 0, 1, 2, 3, 2, 3]),
+             "lone_traces": np.array([0, 0, 7, 0, 3])}          # labels carried by a single trace (one channel left on a shank, a reference trace with its own label)
 
 
 def replay_car(vals, oid):
